@@ -25,7 +25,7 @@ Why(e) == LET pv == PV(PFold(PInit, e.items)) IN
   ELSE "ok"
 
 TInit == l \in 1..Len(Trace)
-TNext == UNCHANGED l
+TNext == FALSE /\ UNCHANGED l
 Emit == PrintT(ToJson([id |-> Trace[l].id, why |-> Why(Trace[l]),
                        segs |-> PV(PFold(PInit, Trace[l].items)).segs]))
 =========================================================================
